@@ -263,7 +263,8 @@ var (
 
 func timeCallables(t time.Time) map[string]reflect.Value {
 
-	ms := t.UnixNano() / int64(time.Millisecond)
+	// Not t.UnixNano(): 64-bit nanoseconds end in the year 2262.
+	ms := t.Unix()*1000 + int64(t.Nanosecond())/int64(time.Millisecond)
 
 	millis := &partialCallable{
 		callableName: callableName{
